@@ -403,8 +403,9 @@ def _other_uses(fn, name, allowed_ids):
 
 
 def scalarise_dict_literals(fn):
-    """`d = {"k": e, ...}` (only binding of d, constant keys), used only as `f(..., **d)` and `d["k"]`: the entries become locals
-    `d__k = e` at the place of the literal, `**d` becomes `k=d__k, ...`, `d["k"]` becomes `d__k`."""
+    """`d = {"k": e, ...}` / `d = dict(k=e, ...)` (the only binding of d besides `d = None`, constant keys, d never mutated): the entries
+    become locals `d__k = e` at the place of the literal (which then reads `d = {"k": d__k, ...}`), `**d` becomes `k=d__k, ...`,
+    `d["k"]` and `d.get("k")` become `d__k`."""
     changed = False
     for lst in list(_stmt_lists(fn)):
         for idx, st in enumerate(list(lst)):
@@ -413,7 +414,7 @@ def scalarise_dict_literals(fn):
                 tgt = st.targets[0]
             elif isinstance(st, ast.AnnAssign) and isinstance(st.target, ast.Name) and st.value is not None:
                 tgt = st.target
-            if tgt is None:
+            if tgt is None or getattr(st, "_scalarised", False):
                 continue
             v = st.value
             if isinstance(v, ast.Call) and isinstance(v.func, ast.Name) and v.func.id == "dict" and not v.args and v.keywords and all(k.arg for k in v.keywords):
@@ -423,23 +424,33 @@ def scalarise_dict_literals(fn):
             else:
                 continue
             d = tgt.id
-            if len(_bindings(fn, d)) != 1:
+            others = [n for n in _bindings(fn, d) if n is not tgt]
+            pm = {}
+            for par in ast.walk(fn):
+                for ch in ast.iter_child_nodes(par):
+                    pm[ch] = par
+            if any(not (isinstance(pm.get(n), ast.Assign) and isinstance(pm[n].value, ast.Constant) and pm[n].value.value is None) for n in others):
                 continue
-            uses_ok, star_calls, loads = True, [], []
-            allowed = {id(tgt)}
+            mutated = False
+            star_calls, loads = [], []
             for n in ast.walk(fn):
                 if isinstance(n, ast.Call):
                     for k in n.keywords:
                         if k.arg is None and isinstance(k.value, ast.Name) and k.value.id == d:
                             if any(kk.arg in keys for kk in n.keywords if kk.arg):
-                                uses_ok = False
+                                mutated = True
                             star_calls.append((n, k))
-                            allowed.add(id(k.value))
-                if isinstance(n, ast.Subscript) and isinstance(n.value, ast.Name) and n.value.id == d and isinstance(n.ctx, ast.Load) \
-                        and isinstance(n.slice, ast.Constant) and n.slice.value in keys:
-                    loads.append(n)
-                    allowed.add(id(n.value))
-            if not uses_ok or _other_uses(fn, d, allowed) or not (star_calls or loads):
+                    if isinstance(n.func, ast.Attribute) and isinstance(n.func.value, ast.Name) and n.func.value.id == d:
+                        if n.func.attr == "get" and len(n.args) == 1 and isinstance(n.args[0], ast.Constant) and n.args[0].value in keys:
+                            loads.append(n)
+                        elif n.func.attr not in ("keys", "values", "items", "copy"):
+                            mutated = True
+                if isinstance(n, ast.Subscript) and isinstance(n.value, ast.Name) and n.value.id == d:
+                    if isinstance(n.ctx, ast.Load) and isinstance(n.slice, ast.Constant) and n.slice.value in keys:
+                        loads.append(n)
+                    elif not isinstance(n.ctx, ast.Load):
+                        mutated = True
+            if mutated or not (star_calls or loads):
                 continue
             pre = []
             for k, e in zip(keys, vals):
@@ -448,12 +459,16 @@ def scalarise_dict_literals(fn):
                 pos_ = call.keywords.index(kw)
                 call.keywords[pos_:pos_ + 1] = [ast.keyword(arg=k, value=ast.Name(id=f"{d}__{k}", ctx=ast.Load())) for k in keys]
             for n in loads:
+                key = n.slice.value if isinstance(n, ast.Subscript) else n.args[0].value
+                new = ast.copy_location(ast.Name(id=f"{d}__{key}", ctx=ast.Load()), n)
                 n.__class__ = ast.Name
-                n.__dict__.update(ast.copy_location(ast.Name(id=f"{d}__{n.slice.value}", ctx=ast.Load()), n).__dict__)
-                for a in ("value", "slice"):
-                    n.__dict__.pop(a, None)
+                n.__dict__.clear()
+                n.__dict__.update(new.__dict__)
+            keep = ast.copy_location(ast.Assign(targets=[ast.Name(id=d, ctx=ast.Store())],
+                                                value=ast.Dict(keys=[ast.Constant(value=k) for k in keys], values=[ast.Name(id=f"{d}__{k}", ctx=ast.Load()) for k in keys])), st)
+            keep._scalarised = True
             k0 = lst.index(st)
-            lst[k0:k0 + 1] = pre
+            lst[k0:k0 + 1] = pre + [keep]
             changed = True
     if changed:
         ast.fix_missing_locations(fn)
